@@ -341,7 +341,8 @@ func C05(p *Prog, r *Run) {
 		r.Check(pairOK, "add-node.same-node", p.Pos(fn.Pos()), "both genes of a split go through the same new node", "the two genes created on one path do not share the new node (a->n, n->b)")
 		// write set
 		ws, _ := p.writeSet(fn, 0)
-		allowed := map[string]string{"Gene.IsEnabled": "", "Genome.Genes": "", "Genome.Nodes": "", "mapupdate": "node index", "elem:Genes": "", "elem:Nodes": ""}
+		// Genome.Phenotype is the cache of the expressed network, not genetic material; what may be stored there is C11.8's (nil, or what Genesis built)
+		allowed := map[string]string{"Gene.IsEnabled": "", "Genome.Genes": "", "Genome.Nodes": "", "mapupdate": "node index", "elem:Genes": "", "elem:Nodes": "", "Genome.Phenotype": "cache"}
 		_ = nodeInsert
 		bad := []string{}
 		for _, k := range sortedKeys(ws) {
@@ -374,7 +375,7 @@ func C05(p *Prog, r *Run) {
 			fn := p.Func(PkgG, "Genome."+n)
 			r.Fn(FuncName(fn))
 			ws, _ := p.writeSet(fn, 0)
-			allowed := map[string]bool{}
+			allowed := map[string]bool{"Genome.Phenotype": true} // the cache of the expressed network may be dropped (C11.8 says what may be stored)
 			for _, k := range want[n] {
 				allowed[k] = true
 			}
@@ -395,7 +396,7 @@ func C05(p *Prog, r *Run) {
 		// the dispatcher applies only these
 		fn := p.Func(PkgG, "Genome.mutateAllNonstructural")
 		ws, _ := p.writeSet(fn, 0)
-		allowed := map[string]bool{}
+		allowed := map[string]bool{"Genome.Phenotype": true}
 		for _, v := range want {
 			for _, k := range v {
 				allowed[k] = true
@@ -1120,7 +1121,7 @@ func (r *Run) checkConnectSensors(sums *Summaries) {
 	}
 	// write set
 	ws, _ := p.writeSet(fn, 0)
-	allowed := map[string]bool{"Genome.Genes": true, "elem:Genes": true}
+	allowed := map[string]bool{"Genome.Genes": true, "elem:Genes": true, "Genome.Phenotype": true}
 	var bad []string
 	for _, k := range sortedKeys(ws) {
 		if !allowed[k] {
